@@ -13,7 +13,7 @@ import (
 // hostile but protocol-legal client data (C20) and hostile requests (C13)
 
 var hostileIds = []string{
-	"a/b", "a:b", "a.b", "A", "a", "a ", " a", "ä", "a%2Fb", "a_b", "a%b", "<a&b>", `"q"`, "{x}", "a?b=c", "a#b", "a:b:c", "b:c", "日本", "a\tb", "{{.id}}", "a'b", "a\\b", "null", "123", "x/y/z",
+	"a/b", "a:b", "a.b", "A", "a", "a ", " a", "a+b", "a+b/c", "1+1,2", "é+ü/ß", "a b/c", "a;b", "a,b", "ä", "a%2Fb", "a_b", "a%b", "<a&b>", `"q"`, "{x}", "a?b=c", "a#b", "a:b:c", "b:c", "日本", "a\tb", "{{.id}}", "a'b", "a\\b", "null", "123", "x/y/z",
 }
 
 var hostileStrings = []string{
@@ -60,8 +60,21 @@ type endpoint struct {
 }
 
 func (g *Gen) someId() string {
-	if g.R.Intn(3) == 0 {
+	if g.R.Intn(4) == 0 {
 		return pick(g.R, hostileIds)
+	}
+	// prefer promises that exist
+	if g.R.Intn(3) != 0 && len(g.S.Last.Promises) > 0 {
+		ids := make([]string, 0, len(g.S.Last.Promises))
+		for id, p := range g.S.Last.Promises {
+			if p.State == 1 || g.R.Intn(3) == 0 {
+				ids = append(ids, id)
+			}
+		}
+		if len(ids) > 0 {
+			sortStrings(ids)
+			return pick(g.R, ids)
+		}
 	}
 	return g.promiseId()
 }
@@ -96,7 +109,7 @@ func (g *Gen) endpoints() []endpoint {
 			return map[string]any{"promise": map[string]any{"id": g.someId(), "timeout": fmt.Sprint(now + 100000), "tags": map[string]any{"resonate:invoke": "poll://g/w"}}, "task": map[string]any{"processId": "w0", "ttl": 1000}}
 		}},
 		{"PATCH", "/promises/" + g.someId(), func(g *Gen) map[string]any {
-			return map[string]any{"state": pick(g.R, []string{"RESOLVED", "REJECTED", "REJECTED_CANCELED", "resolved", "PENDING", "REJECTED_TIMEDOUT", "x"}), "value": map[string]any{"headers": map[string]any{"h": "v"}, "data": b64("d")}}
+			return map[string]any{"state": pick(g.R, []string{"RESOLVED", "REJECTED", "REJECTED_CANCELED", "resolved", "PENDING", "pending", "Pending", "REJECTED_TIMEDOUT", "rejected_timedout", "x", ""}), "value": map[string]any{"headers": map[string]any{"h": "v"}, "data": b64("d")}}
 		}, pick(g.R, []string{"ResolvePromise", "RejectPromise", "CancelPromise"}), func(g *Gen) map[string]any {
 			return map[string]any{"id": g.someId(), "value": map[string]any{"headers": map[string]any{"h": "v"}, "data": b64("d")}, "idempotencyKey": "k"}
 		}},
@@ -216,7 +229,7 @@ func (g *Gen) hostileReq() *ReqSpec {
 	ep := eps[r.Intn(len(eps))]
 	if r.Intn(2) == 0 {
 		body := ep.body(g)
-		if r.Intn(5) != 0 {
+		if r.Intn(5) < 2 {
 			g.mutate(body)
 		}
 		raw, _ := json.Marshal(body)
@@ -253,7 +266,7 @@ func (g *Gen) hostileReq() *ReqSpec {
 		return &ReqSpec{Kind: "RawHTTP", Proto: "http", State: ep.method, Id: path, Headers: hd, Data: &s}
 	}
 	body := ep.grpcBody(g)
-	if r.Intn(5) != 0 {
+	if r.Intn(5) < 2 {
 		g.mutateGrpc(body)
 	}
 	raw, _ := json.Marshal(body)
